@@ -110,6 +110,15 @@ def grosslyInvalidDomain (d : Bytes) : Bool :=
   d.isEmpty || d.any (fun c => !(isAsciiAlnum c || c = 46 || c = 45 || c = 58)) ||
     ((dotGroups (d.takeWhile (· ≠ 58))).any List.isEmpty)
 
+/-- the same text with a `+` directly after the first `:` removed (`host:+80`) -/
+def dropPortPlus : Bytes → Bytes
+  | [] => []
+  | c :: r => if c = 58 then (match r with | 43 :: r' => c :: r' | _ => c :: r) else c :: dropPortPlus r
+
+/-- finding class of an accepted, grossly invalid domain: a signed port is its own class -/
+def invalidDomainClass (d : Bytes) : String :=
+  if grosslyInvalidDomain (dropPortPlus d) then "domain-invalid-accepted" else "domain-port-plus-sign"
+
 /-- spec level: `a` is `b` or a sub-domain of `b` -/
 def subDomainOf (a b : Bytes) : Bool := a = b || (46 :: b).isSuffixOf a
 
@@ -267,7 +276,7 @@ def judge (fs : List String) : String :=
     | some d =>
       let m := boolStr (isValidDomain d)
       if out = "1" && grosslyInvalidDomain d then
-        specfail id "domain-invalid-accepted" s!"accepted {hexEncode d} as a base domain"
+        specfail id (invalidDomainClass d) s!"accepted {hexEncode d} as a base domain"
       else if m ≠ out then disagree id m out
       else agree id (if out = "1" then (if d.contains 58 then "dom-ok-port" else "dom-ok") else "dom-bad")
     | none => badline id
@@ -306,7 +315,11 @@ def judge (fs : List String) : String :=
         | .ok _ => "ok"
         | .error e => showDomainError e
       if out = "ok" && (ds.isEmpty || ds.any grosslyInvalidDomain) then
-        specfail id "multi-invalid-accepted" "accepted a configuration with no or an invalid domain"
+        let cls := match ds.filter grosslyInvalidDomain with
+          | [] => "multi-empty-accepted"
+          | bad => if bad.all (fun d => invalidDomainClass d = "domain-port-plus-sign")
+              then "domain-port-plus-sign" else "domain-invalid-accepted"
+        specfail id cls "accepted a configuration with no or an invalid domain"
       else if out = "ok" && hasOverlap ds then
         specfail id "multi-overlap-accepted" "accepted a configuration with overlapping domains"
       else if m ≠ out then disagree id m out else agree id ("mn-" ++ out)
